@@ -121,7 +121,9 @@ def make_shg_mgr(cfg, groups):
             kw['src_sin_dec_half_bandwidth'] = float(g['hbw'])
         er = g.get('erange')
         meth = PointLikeSourceI3SignalGenerationMethod(
-            energy_range=None if er is None else (float(er[0]), float(er[1])),
+            energy_range=(None if er is None else
+                          {'tuple': tuple, 'list': list, 'ndarray': np.array}[g.get('erange_form', 'tuple')](
+                              [float(er[0]), float(er[1])])),
             src_batch_size=int(g.get('batch', 128)), **kw)
         shgs.append(SourceHypoGroup(sources=srcs, fluxmodel=fm, detsigyield_builders=c['NoBuilder'](cfg=cfg),
                                     sig_gen_method=meth))
@@ -178,11 +180,33 @@ def gen_mc(seed, n, sin_lo=-1.0, sin_hi=1.0, e_lo=2.0, e_hi=6.0, max_offset=0.05
     }
 
 
-def make_data(mc_fields_list, livetimes):
+def _layout(v, layout):
+    """the same numbers in another memory layout: 'copy' (fresh contiguous), 'strided' (every 2nd element of a
+    larger buffer), 'readonly' (not writeable), 'offset' (a slice that does not start at the buffer)"""
+    v = np.array(v)
+    if layout == 'strided':
+        big = np.empty((2 * len(v),), dtype=v.dtype)
+        big[::2] = v
+        big[1::2] = v[::-1] if len(v) else v
+        return big[::2]
+    if layout == 'offset':
+        big = np.empty((len(v) + 3,), dtype=v.dtype)
+        big[3:] = v
+        big[:3] = v[:3] if len(v) >= 3 else 0
+        return big[3:]
+    if layout == 'readonly':
+        v.setflags(write=False)
+    return v
+
+
+def make_data(mc_fields_list, livetimes, layout='copy'):
+    """layout 'copy': the record array copies plain arrays; otherwise the arrays are handed over as they are
+    (copy=False) in the given memory layout"""
     from skyllh.core.dataset import DatasetData
     from skyllh.core.storage import DataFieldRecordArray
     return [DatasetData(data_exp=None,
-                        data_mc=DataFieldRecordArray({k: np.array(v) for k, v in f.items()}, copy=True),
+                        data_mc=DataFieldRecordArray({k: _layout(v, layout) for k, v in f.items()},
+                                                     copy=(layout == 'copy')),
                         livetime=float(lt))
             for f, lt in zip(mc_fields_list, livetimes)]
 
@@ -208,8 +232,12 @@ def make_count_generator(cfg, Y, groups=None):
     return g, gens, dswf
 
 
-def make_mc_generator(cfg, groups, mc_fields_list, livetimes, valid_ranges=None, Y=None):
-    """real MCMultiDatasetSignalGenerator on synthetic MC.  Returns (generator, shg_mgr, data_list)."""
+def make_mc_generator(cfg, groups, mc_fields_list, livetimes, valid_ranges=None, Y=None, layout='copy',
+                      ranges_form='list'):
+    """real MCMultiDatasetSignalGenerator on synthetic MC.  Returns (generator, shg_mgr, data_list).
+    ranges_form: 'list' — the ranges are given to the constructor; 'inplace' — the generator is constructed without
+    ranges and each dataset's dictionary is then filled in through the public valid_event_field_ranges_dict_list
+    property; 'setter' — constructed without, then the whole list is assigned through the property."""
     from skyllh.core.signal_generator import MCMultiDatasetSignalGenerator
     shg_mgr = make_shg_mgr(cfg, groups)
     J = len(mc_fields_list)
@@ -217,13 +245,20 @@ def make_mc_generator(cfg, groups, mc_fields_list, livetimes, valid_ranges=None,
         Y = np.ones((J, shg_mgr.n_sources))
     _, _, dswf = make_weight_services(shg_mgr, Y)
     dss = make_datasets(cfg, livetimes)
-    datas = make_data(mc_fields_list, livetimes)
+    datas = make_data(mc_fields_list, livetimes, layout)
     vr = None
     if valid_ranges is not None:
         vr = [dict((k, (float(v[0]), float(v[1]))) for k, v in d.items()) for d in valid_ranges]
     g = MCMultiDatasetSignalGenerator(shg_mgr=shg_mgr, dataset_list=dss, data_list=datas,
-                                      valid_event_field_ranges_dict_list=vr,
+                                      valid_event_field_ranges_dict_list=(vr if ranges_form == 'list' else None),
                                       ds_sig_weight_factors_service=dswf, cfg=cfg)
+    if vr is not None and ranges_form == 'inplace':
+        lst = g.valid_event_field_ranges_dict_list
+        for j, d in enumerate(vr):
+            for k, v in d.items():
+                lst[j][k] = v
+    elif vr is not None and ranges_form == 'setter':
+        g.valid_event_field_ranges_dict_list = vr
     return g, shg_mgr, datas
 
 
